@@ -11,6 +11,7 @@ import (
 
 	"github.com/moov-io/iso8583"
 	iso8583errors "github.com/moov-io/iso8583/errors"
+	"github.com/moov-io/iso8583/field"
 
 	"verif/harness/gen"
 	"verif/harness/impl"
@@ -368,6 +369,11 @@ func checkRepack(rep *Reporter, specT *T, data []byte) {
 		}
 		b1, err := m.Pack()
 		if err != nil {
+			// known finding KF8: the failure is a composite's own length prefix refusing the
+			// length of the canonically re-encoded body, every set subfield packing on its own
+			if tag == "" && kf8(m, err) {
+				tag = "KF8 "
+			}
 			rep.Viol(tag+"Unpack accepted the bytes but Pack fails on the resulting message", line, err.Error())
 			return
 		}
@@ -384,6 +390,44 @@ func checkRepack(rep *Reporter, specT *T, data []byte) {
 			rep.Viol(tag+"re-encoding is not a fixed point (unpack-then-pack twice differs from once)", line, fmt.Sprintf("%x vs %x", b1, b2))
 		}
 	})
+}
+
+// kf8 reports whether Pack failed at a composite whose set subfields all pack individually
+// and whose error is the composite's own "failed to encode length": Unpack is lenient (an
+// unpadded value in a padded subfield, a non-canonical numeral, a skipped unknown element),
+// so the canonical re-encoding of what it accepted has another length than what was read.
+func kf8(m *iso8583.Message, packErr error) bool {
+	if !strings.Contains(packErr.Error(), "failed to encode length") {
+		return false
+	}
+	var compFail func(f field.Field) bool
+	compFail = func(f field.Field) bool {
+		c, ok := f.(*field.Composite)
+		if !ok {
+			return false
+		}
+		for _, sf := range c.GetSubfields() {
+			if _, err := sf.Pack(); err != nil {
+				return compFail(sf)
+			}
+		}
+		return true
+	}
+	ids := []int{}
+	fs := m.GetFields()
+	for id := range fs {
+		ids = append(ids, id)
+	}
+	sort.Ints(ids)
+	for _, id := range ids {
+		if id < 2 {
+			continue
+		}
+		if _, err := fs[id].Pack(); err != nil {
+			return compFail(fs[id])
+		}
+	}
+	return false
 }
 
 // kf2 reports whether some EBCDIC-1047 encoded primitive of the decoded content holds a
@@ -461,9 +505,55 @@ func runC02(t gen.Tier, r *gen.Rng, rep *Reporter) {
 			checkRepack(rep, specT, mut)
 		}
 		checkRepack(rep, specT, r.Bytes(r.Intn(40)))
+		// lenient acceptance: the same content as a sender without padding would write it
+		// (variable-length padded primitives sent unpadded)
+		if relaxed, changed := stripVarPads(specT); changed {
+			if spec2, ok := impl.MsgSpecOfTree(relaxed); ok {
+				m2 := iso8583.NewMessage(spec2)
+				if impl.SetMsg(m2, g.Msg(specT)) {
+					if wire, err := m2.Pack(); err == nil {
+						checkRepack(rep, specT, wire)
+					}
+				}
+			}
+		}
+	}
+	for _, l := range c02Directed {
+		linesMsg(nil, checkRepack)([]string{l}, rep)
 	}
 	emitDist(rep, g)
 	rep.Sample("M <coherent spec> unpack <mutated valid encoding> => if accepted: Pack ok, re-packed bytes accepted, same content, re-pack identical")
+}
+
+// c02Directed: the witnesses of Lemmas/FieldRepack.lean (grow / shrink / skip / empty) at message level
+var c02Directed = []string{
+	"M m(p(s,4,ascii,ascii.F,nil,d),bm(8,binary,binary.F,1),f(2,c(3,ascii.2,t(0,-,nil,str,0,-),sub(1,p(s,5,ascii,ascii.1,L20,d))))) unpack 3031303040000000000000003033324142",
+	"M m(p(s,4,ascii,ascii.F,nil,d),bm(8,binary,binary.F,1),f(2,c(4,ascii.F,t(0,-,nil,str,0,-),sub(1,p(n,9,ascii,ascii.1,nil,d))))) unpack 30313030400000000000000033303037",
+	"M m(p(s,4,ascii,ascii.F,nil,d),bm(8,binary,binary.F,1),f(2,c(9,ascii.F,t(2,ascii,nil,str,1,ascii.2),sub(01,p(s,5,ascii,ascii.1,nil,d))))) unpack 30313030400000000000000030313141393930315a",
+	"M m(p(s,4,ascii,ascii.F,nil,d),bm(8,binary,binary.F,1),f(2,c(0,ascii.2,t(0,-,nil,str,0,-),sub(1,p(s,0,ascii,ascii.F,nil,d))))) unpack 3031303040000000000000003030",
+}
+
+// stripVarPads returns the spec with the padder removed from every variable-length primitive
+func stripVarPads(spec *T) (*T, bool) {
+	changed := false
+	var walk func(t *T) *T
+	walk = func(t *T) *T {
+		c := *t
+		c.Kids = make([]*T, len(t.Kids))
+		for i, k := range t.Kids {
+			c.Kids[i] = walk(k)
+		}
+		if c.Name == "p" && len(c.Kids) == 6 {
+			pref, pad := c.Kids[3].Name, c.Kids[4].Name
+			if pref != "none" && !strings.HasSuffix(pref, ".F") && pad != "nil" && pad != "none" && c.Kids[5].Name == "d" {
+				c.Kids[4] = impl.A("nil")
+				changed = true
+			}
+		}
+		return &c
+	}
+	out := walk(spec)
+	return out, changed
 }
 
 // ---------------------------------------------------------------- C08
